@@ -978,6 +978,19 @@ func (w *_assembler) AssignString(s string) error {
 	}
 	customConverter := w.cfg.converterFor(w.schemaType.Name(), w.val)
 	_, isAny := w.schemaType.(*schema.TypeAny)
+	if enumType, ok := w.schemaType.(*schema.TypeEnum); ok {
+		// At the type level an enum's value is the name of one of its members.
+		valid := false
+		for _, member := range enumType.Members() {
+			if member == s {
+				valid = true
+				break
+			}
+		}
+		if !valid {
+			return fmt.Errorf("AssignString: %q is not a valid member of enum %s", s, enumType.Name())
+		}
+	}
 	if customConverter != nil {
 		var typ interface{}
 		var err error
